@@ -635,7 +635,6 @@ fn materialise(u: &[Vec<u8>], ev: &[u8]) -> Vec<Rx> {
 /// all rx scripts: item sequences over `syms` of length <= maxlen, each gap in {nothing, Pending, End}
 /// (or {nothing, Pending} when `ends` is false)
 fn rx_scripts(syms: &[u8], maxlen: usize, ends: bool) -> Vec<Vec<u8>> {
-    let mut out = Vec::new();
     let mut seqs: Vec<Vec<u8>> = vec![vec![]];
     let mut frontier: Vec<Vec<u8>> = vec![vec![]];
     for _ in 0..maxlen {
@@ -650,8 +649,14 @@ fn rx_scripts(syms: &[u8], maxlen: usize, ends: bool) -> Vec<Vec<u8>> {
         seqs.extend(next.iter().cloned());
         frontier = next;
     }
+    with_gaps(&seqs, ends)
+}
+
+/// every gap of every sequence in {nothing, Pending, End} (or {nothing, Pending})
+fn with_gaps(seqs: &[Vec<u8>], ends: bool) -> Vec<Vec<u8>> {
+    let mut out = Vec::new();
     let g = if ends { 3usize } else { 2 };
-    for s in &seqs {
+    for s in seqs {
         let gaps = s.len() + 1;
         let combos = g.pow(gaps as u32);
         for mut c in 0..combos {
@@ -671,6 +676,26 @@ fn rx_scripts(syms: &[u8], maxlen: usize, ends: bool) -> Vec<Vec<u8>> {
         }
     }
     out
+}
+
+/// all distinct arrangements of a multiset of symbols
+fn multiset_perms(ms: &[u8]) -> Vec<Vec<u8>> {
+    fn go(rest: &mut Vec<u8>, cur: &mut Vec<u8>, out: &mut std::collections::BTreeSet<Vec<u8>>) {
+        if rest.is_empty() {
+            out.insert(cur.clone());
+            return;
+        }
+        for i in 0..rest.len() {
+            let x = rest.remove(i);
+            cur.push(x);
+            go(rest, cur, out);
+            cur.pop();
+            rest.insert(i, x);
+        }
+    }
+    let mut out = std::collections::BTreeSet::new();
+    go(&mut ms.to_vec(), &mut Vec::new(), &mut out);
+    out.into_iter().collect()
 }
 
 fn call_seqs(n_letters: usize, maxlen: usize) -> Vec<Vec<u8>> {
@@ -1000,7 +1025,12 @@ pub fn run(kv: &Args) -> i32 {
         };
         // ---- (1) exhaustive: arrival sequences x Pending/End placements x call sequences x cancellation points
         let syms: Vec<u8> = (0..u.len() as u8).collect();
-        let scripts = rx_scripts(&syms, if thorough { 4 } else { 4 }, true);
+        let mut scripts = rx_scripts(&syms, 4, true);
+        // 5 frames: every arrangement of {A1, A1 (identical duplicate), B1, C1, S} and {A1, A2, B1, B1, S},
+        // every gap in {nothing, Pending}
+        let mut five = multiset_perms(&[0, 0, 2, 3, 4]);
+        five.extend(multiset_perms(&[0, 1, 2, 2, 4]));
+        scripts.extend(with_gaps(&five, false));
         // quick: a seeded slice of the scripts with >= 3 items; thorough: all
         let slice_mod: u64 = if thorough { 1 } else { kv.u64("slice", 8) };
         let rate: u64 = kv.u64("rate", if thorough { 330 } else { 800 });
